@@ -11446,7 +11446,15 @@ func ruleResolvedDefinitionSwitchesResolveAliases(c *core.Ctx) {
 					if r := singleDefRHS(info, d.Body, x); r != ast.Expr(x) {
 						cur = ast.Unparen(r)
 					} else {
+						// `st, ok := <expr>.(*dsl.SimpleType)`: two names, one right-hand side
 						cur = nil
+						xo := info.ObjectOf(x)
+						ast.Inspect(d.Body, func(m ast.Node) bool {
+							if as, ok := m.(*ast.AssignStmt); ok && len(as.Lhs) == 2 && len(as.Rhs) == 1 && identObj(info, as.Lhs[0]) == xo && xo != nil {
+								cur = ast.Unparen(as.Rhs[0])
+							}
+							return true
+						})
 					}
 				default:
 					cur = nil
@@ -11496,10 +11504,12 @@ func ruleDepthTestBeforeMemoLookup(c *core.Ctx) {
 		}
 		// depth test: an integer parameter compared with a constant
 		if be, ok := ast.Unparen(is.Cond).(*ast.BinaryExpr); ok && is.Init == nil {
-			if o := identObj(info, be.X); o != nil && params[o] {
-				if b, isB := o.Type().Underlying().(*types.Basic); isB && b.Info()&types.IsInteger != 0 {
-					if _, isC := constInt(info, be.Y); isC && depthPos == token.NoPos {
-						depthPos = is.Pos()
+			for _, pr := range [][2]ast.Expr{{be.X, be.Y}, {be.Y, be.X}} {
+				if o := identObj(info, pr[0]); o != nil && params[o] {
+					if b, isB := o.Type().Underlying().(*types.Basic); isB && b.Info()&types.IsInteger != 0 {
+						if _, isC := constInt(info, pr[1]); isC && depthPos == token.NoPos {
+							depthPos = is.Pos()
+						}
 					}
 				}
 			}
@@ -11523,8 +11533,12 @@ func ruleDepthTestBeforeMemoLookup(c *core.Ctx) {
 		if o == nil || !params[o] {
 			return true
 		}
-		if _, isMap := o.Type().Underlying().(*types.Map); !isMap {
+		mt, isMap := o.Type().Underlying().(*types.Map)
+		if !isMap {
 			return true
+		}
+		if b, isBasic := mt.Elem().Underlying().(*types.Basic); isBasic && b.Info()&types.IsBoolean != 0 {
+			return true // the set of packages on the current import chain (cycle test), not the memo
 		}
 		returns := false
 		ast.Inspect(is.Body, func(k ast.Node) bool {
@@ -11598,7 +11612,7 @@ func ruleDefinitionEqualityComparesNamespaces(c *core.Ctx) {
 // is the case's `.Tag` itself, not an identifier derived from it (PascalCase is for class and method names).
 func ruleUnionTagsPrintedVerbatim(c *core.Ctx) {
 	const rule = "TG1"
-	c.Rule(rule, "back ends: the argument printed into `\"tag\": \"%s\"`, `tag == \"%s\"` and `ordered_json{ {\"%s\", …} }` is a TypeCase's .Tag field itself", 3)
+	c.Rule(rule, "back ends: the argument printed into `\"tag\": \"%s\"`, `tag == \"%s\"` and `ordered_json{ {\"%s\", …} }` is a TypeCase's .Tag field itself", 1)
 	verb := regexp.MustCompile(`%(\[\d+\])?[a-zA-Z]`)
 	spots := []*regexp.Regexp{regexp.MustCompile(`"tag": "%s"`), regexp.MustCompile(`tag == "%s"`), regexp.MustCompile(`ordered_json\{ \{"%s"`)}
 	n := 0
